@@ -1,7 +1,7 @@
 #!/bin/bash
 # Extract the model and build the OCaml driver into /verif/ocaml/_build/driver
 set -e
-cd /verif/ocaml
+cd "${VERIF_ROOT:-$(cd "$(dirname "$0")/.." && pwd)}/ocaml"
 mkdir -p _build
 cd _build
 cp ../main.ml .
